@@ -60,6 +60,22 @@ Definition check_case (c : case_t) : bool :=
   && qapprox (r_time r) (o_time c) && Nat.eqb (r_events r) (o_events c)
   && (negb (c_sync c) || Nat.eqb (r_steps r) (o_steps c)).
 
+(* C07 says nothing about occupied edges and hitting times (that is C08): its tie leaves the marks out *)
+Definition check_case_nomarks (c : case_t) : bool :=
+  let r := model_run c in
+  let w := world (r_final r) in
+  o_ok c && negb (r_stuck r)
+  && list_eqb h_eqb (handlers_of (r_out r)) (o_handlers c)
+  && list_eqb t_eqb (taps_of (r_out r)) (o_taps c)
+  && list_eqb o_eqb (observations_of (r_out r)) (o_observations c)
+  && forallb (fun nc => opt_eqb Z.eqb (getc (cw_st w) (fst nc)) (Some (snd nc))) (o_final_comp c)
+  && Nat.eqb (length (o_final_comp c)) (length (st_nodes (cw_st w)))
+  && list_eqb (list_eqb Kernel.elem_eqb) (loci (r_final r)) (o_final_loci c)
+  && list_eqb (list_eqb Kernel.elem_eqb) (map ksort (st_loci (cw_st w))) (o_final_loci c)
+  && forallb (fun cn => Nat.eqb (count_in (cw_st w) (fst cn)) (snd cn)) (o_counts c)
+  && qapprox (r_time r) (o_time c) && Nat.eqb (r_events r) (o_events c)
+  && (negb (c_sync c) || Nat.eqb (r_steps r) (o_steps c)).
+
 (* for debugging: which conjunct fails *)
 Definition diagnose (c : case_t) : list bool :=
   let r := model_run c in
